@@ -14,6 +14,7 @@ Cases the transformation refuses (explicit NotImplementedError / "not supported"
 raises are not judged here (the behavioural check of that transformation reports them).
 """
 import importlib
+import json
 import logging
 import pkgutil
 
@@ -46,6 +47,14 @@ def streams():
             if hasattr(mod, 'make_cases') and hasattr(mod, 'apply'):
                 mods[pre] = mod
     return mods
+
+
+def _sw(case):
+    """switches of a case as a list of hashable strings (modules use lists, dicts or nested values)"""
+    sw = case.get('switches', ())
+    if isinstance(sw, dict):
+        return [f'{k}={v}' for k, v in sorted(sw.items(), key=lambda kv: str(kv[0]))]
+    return [x if isinstance(x, str) else json.dumps(x, sort_keys=True, default=str) for x in sw]
 
 
 def worker(item):
@@ -110,14 +119,14 @@ def run(ctx):
     single = {}
     for (pre, case), r in zip(items, results):
         tally[(pre, r['verdict'])] = tally.get((pre, r['verdict']), 0) + 1
-        if r['verdict'] == 'ill-formed' and len(case.get('switches', ())) <= 1:
-            single[(pre, case.get('xform'), tuple(case.get('switches', ())))] = r['kind']
+        if r['verdict'] == 'ill-formed' and len(_sw(case)) <= 1:
+            single[(pre, str(case.get('xform')), tuple(_sw(case)))] = r['kind']
     for (pre, case), r in zip(items, results):
         if r['verdict'] != 'ill-formed':
             continue
-        sws = list(case.get('switches', ()))
-        culprit = next((s for s in sws if single.get((pre, case.get('xform'), (s,))) == r['kind']), None)
-        if culprit is None and single.get((pre, case.get('xform'), ())) == r['kind']:
+        sws = _sw(case)
+        culprit = next((s for s in sws if single.get((pre, str(case.get('xform')), (s,))) == r['kind']), None)
+        if culprit is None and single.get((pre, str(case.get('xform')), ())) == r['kind']:
             culprit = '<default>'
         sig = f'{r["kind"]} stream={pre} xform={case.get("xform")} ' + \
               (f'block={culprit}' if culprit else f'blocks={"+".join(sws) or "<default>"}')
